@@ -383,70 +383,18 @@ Theorem gen_history_independent hist plugin wanted st :
 Proof. rewrite run_history_id. reflexivity. Qed.
 
 (* ------------------------------------------------------------------ isort's section placement *)
-Lemma block_ext b1 b2 sl e1 e2 imps sec :
-  (forall i, In i imps -> place b1 sl e1 i = place b2 sl e2 i) ->
-  block b1 sl e1 imps sec = block b2 sl e2 imps sec.
-Proof.
-  intro H. unfold block. do 3 f_equal. apply filter_ext_in. intros i Hi. rewrite (H i Hi). reflexivity.
-Qed.
-
-Lemma layout_ext b1 b2 sl e1 e2 imps :
-  (forall i, In i imps -> place b1 sl e1 i = place b2 sl e2 i) ->
-  layout b1 sl e1 imps = layout b2 sl e2 imps.
-Proof.
-  intro H. unfold layout. f_equal. apply map_ext. intro sec. apply block_ext. exact H.
-Qed.
-
-(* without source paths the filesystem is never consulted *)
-Theorem layout_fs_free_independent sl e1 e2 imps : layout true sl e1 imps = layout true sl e2 imps.
-Proof.
-  apply layout_ext. intros [lv m] _. unfold place. simpl. reflexivity.
-Qed.
-
-(* the default configuration: independent of what changes below cwd as long as no absolute import's root is
-   among the names that change (guard g_c10_isort) *)
-Theorem layout_partial sl e1 e2 changing imps :
-  (forall m, mem_s (root_of m) changing = false -> e1 m = e2 m) ->
-  g_c10_isort changing sl imps = true ->
-  layout false sl e1 imps = layout false sl e2 imps.
-Proof.
-  intros He G. apply layout_ext. intros [lv m] Hi. unfold place. simpl.
-  unfold g_c10_isort in G. rewrite forallb_forall in G. specialize (G _ Hi). simpl in G.
-  destruct (Nat.ltb 0 lv); auto. destruct (String.eqb (root_of m) "__future__"); auto.
-  destruct (mem_s (root_of m) sl); auto. simpl in G.
-  rewrite (He m); auto. destruct (mem_s (root_of m) changing); [discriminate | reflexivity].
-Qed.
-
-Lemma gen_env_agree cwd target rg1 ea1 rg2 ea2 m : mem_s (root_of m) [target] = false ->
-  gen_env cwd target rg1 ea1 m = gen_env cwd target rg2 ea2 m.
-Proof.
-  unfold gen_env. simpl. intro H. destruct (String.eqb (root_of m) target); [discriminate|]. reflexivity.
-Qed.
-
-(* fresh directory vs regeneration over an existing one (whatever was placed early) *)
-Theorem layout_regenerate_partial sl cwd target early imps :
-  g_c10_isort [target] sl imps = true ->
-  layout false sl (gen_env cwd target false early) imps = layout false sl (gen_env cwd target true early) imps.
-Proof. intro G. apply (layout_partial sl _ _ [target]); auto. intros m Hm. apply gen_env_agree. exact Hm. Qed.
+(* no source path is searched: the import blocks do not depend on what exists below cwd *)
+Theorem layout_env_independent sl e1 e2 imps : layout sl e1 imps = layout sl e2 imps.
+Proof. reflexivity. Qed.
 
 Definition imps_selfimport : list (nat * string) :=
   [(0, "typing"); (0, "pydantic"); (0, "my_client.scalars_impl"); (1, "base_model")].
 
-Theorem layout_regenerate_refuted : exists sl cwd target early imps,
-  layout false sl (gen_env cwd target false early) imps <> layout false sl (gen_env cwd target true early) imps.
-Proof. exists ["typing"], [], "my_client", ["my_client.scalars_impl"], imps_selfimport. vm_compute. discriminate. Qed.
-
-(* an unrelated directory of cwd named like an imported module *)
-Theorem layout_cwd_refuted : exists sl target imps,
-  layout false sl (gen_env [] target false []) imps <> layout false sl (gen_env ["pydantic"] target false []) imps.
-Proof. exists ["typing"], "my_client", imps_selfimport. vm_compute. discriminate. Qed.
-
 Theorem observe_env_independent k : env_sensitive k = false ->
   forall sl e1 e2 imps, observe_env k sl e1 imps = observe_env k sl e2 imps.
-Proof.
-  intros H sl e1 e2 imps. destruct k; try discriminate; simpl; auto using layout_fs_free_independent.
-Qed.
+Proof. intros H sl e1 e2 imps. destruct k; try discriminate; reflexivity. Qed.
 
+(* why no row may have the source-path sink *)
 Theorem observe_env_refuted k : env_sensitive k = true ->
   exists sl e1 e2 imps, observe_env k sl e1 imps <> observe_env k sl e2 imps.
 Proof.
@@ -498,14 +446,17 @@ Qed.
 Definition sensitive_sites : list (string * string * string) :=
   map (fun s => (s_file s, s_fn s, s_expr s)) (filter (fun s => order_sensitive (s_sink s)) site_table).
 
-(* the environment oracle (what exists below cwd) over the table *)
-Theorem emission_env_independent : forall s, In s site_table -> env_sensitive (s_sink s) = false ->
-  forall sl e1 e2 imps, observe_env (s_sink s) sl e1 imps = observe_env (s_sink s) sl e2 imps.
-Proof. intros s _ H. apply observe_env_independent. exact H. Qed.
+(* the environment oracle (what exists below cwd) over the table: EVERY row *)
+Lemma site_table_env_free : forallb (fun s => negb (env_sensitive (s_sink s))) site_table = true.
+Proof. vm_compute. reflexivity. Qed.
 
-Theorem emission_env_refuted : forall s, In s site_table -> env_sensitive (s_sink s) = true ->
-  exists sl e1 e2 imps, observe_env (s_sink s) sl e1 imps <> observe_env (s_sink s) sl e2 imps.
-Proof. intros s _ H. apply observe_env_refuted. exact H. Qed.
+Theorem emission_env_independent : forall s, In s site_table ->
+  forall sl e1 e2 imps, observe_env (s_sink s) sl e1 imps = observe_env (s_sink s) sl e2 imps.
+Proof.
+  intros s Hin. apply observe_env_independent.
+  pose proof site_table_env_free as H. rewrite forallb_forall in H.
+  specialize (H s Hin). destruct (env_sensitive (s_sink s)); [discriminate | reflexivity].
+Qed.
 
 Definition env_sensitive_sites : list (string * string * string) :=
   map (fun s => (s_file s, s_fn s, s_expr s)) (filter (fun s => env_sensitive (s_sink s)) site_table).
